@@ -117,6 +117,40 @@ CHECKS = {
              "(depth <= 5, with and without __init__.py, prefix siblings, odd file names) are scanned by the real code; "
              "module set, import set, the restrict law, the entry-point law and 'sub modules of' verdicts are validated.",
         design_ref="6 (C04)"),
+    "C08": dict(
+        technique="TLA+ glob semantics (Glob!GlobMatch, character level) model-checked and compared exhaustively with "
+                  "the real converter + re.match; exclusion semantics (Scan!Visible) with the filtered-vs-unfiltered law "
+                  "model-checked on MC_Scan; real scans with and without each exclusion validated by Trace_Scan.tla, "
+                  "which matches the patterns itself on the path strings the code sees",
+        text="GlobMatch is checked by TLC against its statement by decomposition for every pattern over a small alphabet "
+             "(incl. '.', '*', and '$' in the thorough tier) up to length 5-6 x every subject up to length 4, and the match "
+             "set TLC prints per pattern is compared with re.match(convert_partial_match_to_regex(p), s) and FileFilter. "
+             "Bounded-model projects x every entry x six pattern shapes (and independently translated regex_exclusions, "
+             "pattern pairs, literal-text regexes, module_path below the root) and seeded random trees with "
+             "regex-metacharacter names are scanned with and without the exclusion; modules, imports and the "
+             "'exactly the matching sub trees disappear' law are validated.",
+        design_ref="6 (C08)"),
+    "C09": dict(
+        technique="Scan!Quotient; TLC proves on MC_Scan that the quotient preserves the verdict of every strict rule above "
+                  "the limit (and refutes the unrestricted law); pairs of real scans (level_limit None vs k) and the "
+                  "verdicts of rules on both are related by law events validated by Trace_Scan.tla",
+        text="The level-limited architecture must equal the unlimited one with every name truncated to len(module_path)+k "
+             "components (imports: images of imports, self-imports dropped). Every bounded-model project and seeded "
+             "random projects are scanned with k in 1..depth at module_path equal to and below the root (with and "
+             "without externals); the trace specification checks the limited scan against the quotient of the unlimited "
+             "scan and that strict rules whose names lie above the limit have the same verdict on both.",
+        design_ref="6 (C09)"),
+    "C10": dict(
+        technique="Scan!ExternalMods / ExternalImports / InternalPart with the internal-part law model-checked on MC_Scan; "
+                  "real scans under exclude / include / glob and regex external exclusions validated by Trace_Scan.tla "
+                  "(external patterns matched by TLC on the dotted names)",
+        text="External = named by an import statement and outside module_path's name space; with externals included each "
+             "retained external and its ancestors are modules and the import exists, retained = neither it nor an "
+             "ancestor matches an external pattern. Bounded-model projects decorated with nested and look-alike external "
+             "imports and seeded random projects are scanned under all option sets (patterns that textually match "
+             "internal names included); every scan is compared with the specification and with the default scan through "
+             "the law that the part at or below module_path is identical.",
+        design_ref="6 (C10)"),
     "C14": dict(
         technique="TLA+ names are component sequences compared only by equality/IsPrefix; TLC checks that RuleSem "
                   "commutes with injective renamings on the bounded model; on the real code every abstract case is "
